@@ -447,6 +447,11 @@ class Machine:
                     return [(env, sigma, ("panic", site + " (%s() on a value that is %s in this state)" % (short, a0[1])))]
                 return done(a0[2])
             return done(TOP)
+        if re.search(r"Option::<T>::take$", name) and a0[0] == "ref":
+            old = self._read_trk(sigma, a0[1], want=True, vars_=[(0, "None"), (1, "Some")])
+            s2 = dict(sigma)
+            self._write_trk(s2, a0[1], VAR("None"))
+            return done(old, s2)
         if re.search(r"Option::<T>::(is_none|is_some)$|Result::<T, E>::(is_ok|is_err)$", name):
             v = a0
             if v[0] == "lref":
